@@ -5,6 +5,8 @@
 mod args;
 mod config;
 mod parse;
+#[cfg(typeshare_verif)]
+mod verif_hooks;
 mod writer;
 
 use std::{
@@ -174,6 +176,8 @@ fn walker_builder(
     for root in directories.iter().skip(1) {
         walker_builder.add(root);
     }
+    #[cfg(typeshare_verif)]
+    verif_hooks::tune_walker(&mut walker_builder);
     Ok(walker_builder)
 }
 
